@@ -1,4 +1,822 @@
-#[allow(dead_code, unused_imports, unused_variables, unused_mut)]
+// C09 (socket layer) and C13 (poll_at) — icmp::Socket never merges, splits, truncates, duplicates or
+// reorders datagrams.  Spliced into src/socket/icmp.rs (private fields of `Socket` reachable).
+//
+// Same method as socket_udp.rs: the socket's PacketBuffers (<= 3 metadata slots, <= 20 payload bytes, metadata symbolic) are brought into a pre-state by a fixed script of public-API steps with symbolic arguments
+// (every step may be a no-op), shadowed by a ghost FIFO; then ONE operation under test; then the queue is
+// drained through the public API and compared with the ghost.  A queued ICMP datagram is the whole ICMP
+// message: 8 header bytes (type, code, checksum, ident, seq_no) + 0..=4 data bytes pat(tag, i);
+// seq_no is derived from the tag, so the ghost stores (tag, data length, address, ident, type, code) only.
+#[allow(dead_code, unused_imports, unused_variables, unused_mut, unused_assignments)]
 mod v_socket_icmp {
     use super::*;
+    use crate::iface::{Config, Interface};
+    use crate::phy::Medium;
+    use crate::time::Instant;
+    use crate::verif_common::*;
+    use crate::verif_dev::NullDev;
+    use crate::wire::{HardwareAddress, IpCidr, Ipv4Address, Icmpv4DstUnreachable, Icmpv4TimeExceeded};
+    #[cfg(feature = "proto-ipv6")]
+    use crate::wire::Ipv6Address;
+
+    const LOCAL: Ipv4Address = Ipv4Address::new(192, 168, 1, 1);
+    const MC: usize = 3; // metadata slots: 2..=3 symbolic
+    const PC: usize = 20; // payload ring (symbolic capacities 0..=8 are explored by socket_udp.rs and storage_packet.rs)
+    const HL: usize = 8; // echo header
+    const DD: usize = 4; // echo data bytes: 0..=4
+    const BL: usize = HL + DD; // largest message: 12 bytes
+
+    fn pat(tag: u8, i: usize) -> u8 {
+        tag.wrapping_mul(7).wrapping_add(i as u8)
+    }
+    fn seq_of(tag: u8) -> u16 {
+        ((tag as u16) << 8) | (tag ^ 0x5a) as u16
+    }
+
+    /// the ICMP message (ty, code, arbitrary checksum, ident, seq_of(tag), pat(tag, ..)) as bytes
+    fn message(tag: u8, ident: u16, ty: u8, code: u8, ck: u16) -> [u8; BL] {
+        [
+            ty, code, (ck >> 8) as u8, ck as u8,
+            (ident >> 8) as u8, ident as u8, (seq_of(tag) >> 8) as u8, seq_of(tag) as u8,
+            pat(tag, 0), pat(tag, 1), pat(tag, 2), pat(tag, 3),
+        ]
+    }
+
+    fn data_of(tag: u8) -> [u8; DD] {
+        [pat(tag, 0), pat(tag, 1), pat(tag, 2), pat(tag, 3)]
+    }
+
+    fn copy_into(buf: &mut [u8], src: &[u8; BL]) {
+        let mut i = 0;
+        while i < BL {
+            if i < buf.len() {
+                buf[i] = src[i];
+            }
+            i += 1;
+        }
+    }
+
+    fn any_v4() -> Ipv4Address {
+        let o: [u8; 4] = kani::any();
+        Ipv4Address::new(o[0], o[1], o[2], o[3])
+    }
+
+    // ---------------------------------------------------------------- ghost FIFO
+    #[derive(Clone, Copy)]
+    struct G {
+        valid: bool,
+        /// the datagram offered by the `process` under test: may have been dropped as a whole
+        opt: bool,
+        tag: u8,
+        /// number of data bytes behind the 8-byte header
+        len: usize,
+        addr: Ipv4Address,
+        ident: u16,
+        ty: u8,
+        code: u8,
+    }
+    const GE: G = G { valid: false, opt: false, tag: 0, len: 0, addr: Ipv4Address::new(0, 0, 0, 0), ident: 0, ty: 0, code: 0 };
+
+    impl G {
+        /// what `dispatch` can parse: echo request (8) / echo reply (0) with code 0.  Everything else that
+        /// fits in 12 bytes is malformed for Icmpv4Repr::parse and is dropped without being emitted.
+        fn echo(&self) -> bool {
+            self.code == 0 && (self.ty == 8 || self.ty == 0)
+        }
+    }
+
+    struct Ghost {
+        q: [G; MC],
+        overflow: bool,
+        popped: bool,
+    }
+    impl Ghost {
+        fn new() -> Ghost {
+            Ghost { q: [GE; MC], overflow: false, popped: false }
+        }
+        fn push(&mut self, g: G) {
+            if !self.q[0].valid { self.q[0] = g; }
+            else if !self.q[1].valid { self.q[1] = g; }
+            else if !self.q[2].valid { self.q[2] = g; }
+            else { self.overflow = true; }
+        }
+        fn pop(&mut self) {
+            if self.q[0].valid { self.popped = true; }
+            self.q[0] = self.q[1];
+            self.q[1] = self.q[2];
+            self.q[2] = GE;
+        }
+        fn count(&self) -> usize {
+            self.q[0].valid as usize + self.q[1].valid as usize + self.q[2].valid as usize
+        }
+        fn bytes(&self) -> usize {
+            (if self.q[0].valid { HL + self.q[0].len } else { 0 })
+                + (if self.q[1].valid { HL + self.q[1].len } else { 0 })
+                + (if self.q[2].valid { HL + self.q[2].len } else { 0 })
+        }
+    }
+
+    // ---------------------------------------------------------------- environment
+    macro_rules! env {
+        ($dev:ident, $iface:ident, $cx:ident) => {
+            let mut $dev = NullDev { medium: Medium::Ip, mtu: 1500, checksum: ChecksumCapabilities::ignored() };
+            let mut $iface = Interface::new(Config::new(HardwareAddress::Ip), &mut $dev, Instant::from_millis(0));
+            $iface.update_ip_addrs(|a| {
+                a.push(IpCidr::new(IpAddress::Ipv4(LOCAL), 24)).unwrap();
+            });
+            let $cx = $iface.context();
+        };
+    }
+
+    macro_rules! sock {
+        ($s:ident, $rmc:expr, $rpc:expr, $tmc:expr, $tpc:expr) => {
+            let mut rxm = [PacketMetadata::EMPTY; MC];
+            let mut rxp = [0u8; PC];
+            let mut txm = [PacketMetadata::EMPTY; MC];
+            let mut txp = [0u8; PC];
+            let (rmc, rpc, tmc, tpc): (usize, usize, usize, usize) = ($rmc, $rpc, $tmc, $tpc);
+            let mut $s = Socket::new(
+                PacketBuffer::new(&mut rxm[..rmc], &mut rxp[..rpc]),
+                PacketBuffer::new(&mut txm[..tmc], &mut txp[..tpc]),
+            );
+        };
+    }
+
+    fn any_slots() -> usize {
+        let v = any_le(MC);
+        kani::assume(v >= 2);
+        v
+    }
+
+    fn any_hop(s: &mut Socket<'_>) -> u8 {
+        if kani::any() {
+            let h: u8 = kani::any();
+            kani::assume(h != 0);
+            s.set_hop_limit(Some(h));
+            h
+        } else {
+            64
+        }
+    }
+
+    // ---------------------------------------------------------------- transmit side: script steps
+    const VIA_SEND: u8 = 0;
+    const VIA_SLICE: u8 = 1;
+    const VIA_WITH: u8 = 2;
+
+    fn any_msg() -> G {
+        let ty: u8 = kani::any();
+        let code: u8 = kani::any();
+        G { valid: true, opt: false, tag: kani::any(), len: any_le(DD), addr: any_v4(), ident: kani::any(), ty, code }
+    }
+
+    /// One send of a symbolic ICMP message (skipped or refused: the step may be a no-op) through the API
+    /// variant `how` (concrete at every call site).
+    fn step_send(s: &mut Socket<'_>, g: &mut Ghost, how: u8) -> bool {
+        if kani::any() {
+            return false;
+        }
+        let m = any_msg();
+        let bytes = message(m.tag, m.ident, m.ty, m.code, kani::any());
+        let size = HL + m.len;
+        let dst = IpAddress::Ipv4(m.addr);
+        let ok = if how == VIA_SEND {
+            match s.send(size, dst) {
+                Ok(buf) => {
+                    copy_into(buf, &bytes);
+                    true
+                }
+                Err(_) => false,
+            }
+        } else if how == VIA_SLICE {
+            s.send_slice(&bytes[..size], dst).is_ok()
+        } else {
+            let max = any_le(BL);
+            kani::assume(size <= max);
+            s.send_with(max, dst, |b| {
+                copy_into(&mut b[..size], &bytes);
+                size
+            })
+            .is_ok()
+        };
+        if ok {
+            g.push(m);
+        }
+        ok
+    }
+
+    fn step_dispatch(s: &mut Socket<'_>, cx: &mut Context, g: &mut Ghost) -> bool {
+        let ok: bool = kani::any();
+        let _ = s.dispatch(cx, |_cx, _p| if ok { Ok(()) } else { Err(()) });
+        // a malformed head is dropped without consulting emit
+        if ok || (g.q[0].valid && !g.q[0].echo()) {
+            g.pop();
+        }
+        ok
+    }
+
+    /// what one `dispatch` hands to `emit`, compared with the ghost entry `e`
+    struct Seen {
+        seen: bool,
+        dst: bool,
+        src: bool,
+        len: bool,
+        hdr: bool,
+        kind: bool,
+        ids: bool,
+        byte: bool,
+    }
+
+    fn dispatch_recording(s: &mut Socket<'_>, cx: &mut Context, e: &G, hop: u8, emit_ok: bool) -> (Seen, Result<(), ()>) {
+        let exp_src = cx.get_source_address_ipv4(&e.addr);
+        let mut o = Seen { seen: false, dst: false, src: false, len: false, hdr: false, kind: false, ids: false, byte: false };
+        let k = any_lt(DD);
+        let r = s.dispatch(cx, |_cx, (ip, icmp)| {
+            o.seen = true;
+            o.dst = ip.dst_addr() == IpAddress::Ipv4(e.addr);
+            o.src = Some(ip.src_addr()) == exp_src.map(IpAddress::Ipv4);
+            o.hdr = ip.next_header() == IpProtocol::Icmp && ip.hop_limit() == hop && ip.payload_len() == HL + e.len;
+            match icmp {
+                IcmpRepr::Ipv4(Icmpv4Repr::EchoRequest { ident, seq_no, data }) => {
+                    o.kind = e.ty == 8;
+                    o.ids = ident == e.ident && seq_no == seq_of(e.tag);
+                    o.len = data.len() == e.len;
+                    o.byte = k >= data.len() || data[k] == pat(e.tag, k);
+                }
+                IcmpRepr::Ipv4(Icmpv4Repr::EchoReply { ident, seq_no, data }) => {
+                    o.kind = e.ty == 0;
+                    o.ids = ident == e.ident && seq_no == seq_of(e.tag);
+                    o.len = data.len() == e.len;
+                    o.byte = k >= data.len() || data[k] == pat(e.tag, k);
+                }
+                _ => {}
+            }
+            if emit_ok { Ok(()) } else { Err(()) }
+        });
+        // with a single IPv4 address on the interface the IPv4 heuristic always answers LOCAL
+        assert!(exp_src == Some(LOCAL), "prop:c09_icmp_tx_source_is_interface_address");
+        (o, r)
+    }
+
+    fn assert_emitted_is(o: &Seen, e: &G) {
+        assert!(e.valid && e.echo(), "prop:c09_icmp_tx_no_extra_datagram");
+        assert!(o.kind && o.len, "prop:c09_icmp_tx_datagram_whole_not_merged_not_split");
+        assert!(o.ids && o.byte, "prop:c09_icmp_tx_message_bytes_unmodified");
+        assert!(o.dst, "prop:c09_icmp_tx_destination_address");
+        assert!(o.src, "prop:c09_icmp_tx_source_per_documented_rule");
+        assert!(o.hdr, "prop:c09_icmp_tx_protocol_length_and_hop_limit");
+    }
+
+    /// The transmit queue equals the ghost: MC dispatches emit exactly the ghost's echo messages, each once,
+    /// whole, in order; a queued message that is not a well-formed echo is dropped, never emitted.
+    fn drain_tx(s: &mut Socket<'_>, cx: &mut Context, g: &Ghost, hop: u8) {
+        assert!(!g.overflow, "prop:c09_icmp_tx_more_datagrams_than_metadata_slots");
+        let mut i = 0;
+        while i < MC {
+            let e = g.q[i];
+            let (o, r) = dispatch_recording(s, cx, &e, hop, true);
+            assert!(r.is_ok(), "prop:c09_icmp_dispatch_error_only_from_emit");
+            if e.valid && e.echo() {
+                assert!(o.seen, "prop:c09_icmp_tx_no_datagram_lost");
+                assert_emitted_is(&o, &e);
+            } else {
+                assert!(!o.seen, "prop:c09_icmp_tx_no_extra_datagram");
+            }
+            i += 1;
+        }
+    }
+
+    macro_rules! tx_setup {
+        ($dev:ident, $iface:ident, $cx:ident, $s:ident, $g:ident, $hop:ident) => {
+            env!($dev, $iface, $cx);
+            sock!($s, 1, 0, any_slots(), PC);
+            let $hop = any_hop(&mut $s);
+            let mut $g = Ghost::new();
+        };
+    }
+
+    fn unspec(a: &Ipv4Address) -> bool {
+        a.octets() == [0, 0, 0, 0]
+    }
+
+    // @harness props=C09 cfg=KG tier=q to=900 mem=8 unwind=17 opts=nomem covers=4 funcs=icmp::Socket::send_slice;icmp::Socket::send;icmp::Socket::send_with;icmp::Socket::dispatch;Icmpv4Repr::parse;PacketBuffer::enqueue;PacketBuffer::dequeue_with bounds=tx_metadata_slots_2..=3;_payload_ring_20_bytes;_pre-state_=_send,_send_with,_dispatch,_dispatch_(each_may_be_a_no-op);_ICMPv4_messages_of_8+0..=4_bytes,_any_type/code/ident,_any_IPv4_destination;_one_interface_address
+    #[kani::proof]
+    pub(crate) fn icmp_send() {
+        tx_setup!(dev, iface, cx, s, g, hop);
+        step_send(&mut s, &mut g, VIA_SEND);
+        step_send(&mut s, &mut g, VIA_WITH);
+        step_dispatch(&mut s, cx, &mut g);
+        step_dispatch(&mut s, cx, &mut g);
+        let before = g.count();
+        let m = any_msg();
+        let size = HL + m.len;
+        let bytes = message(m.tag, m.ident, m.ty, m.code, kani::any());
+        let pcap = s.payload_send_capacity();
+        let mcap = s.packet_send_capacity();
+        let r = s.send_slice(&bytes[..size], IpAddress::Ipv4(m.addr));
+        match r {
+            Ok(()) => {
+                assert!(!unspec(&m.addr), "prop:c09_icmp_send_refuses_unaddressable");
+                g.push(m);
+            }
+            Err(SendError::Unaddressable) => assert!(unspec(&m.addr), "prop:c09_icmp_send_unaddressable_only_as_documented"),
+            Err(SendError::BufferFull) => {
+                // nothing queued => any datagram up to the payload capacity is accepted
+                assert!(!(before == 0 && size <= pcap), "prop:c09_icmp_empty_tx_accepts_up_to_capacity");
+            }
+        }
+        kani::cover!(r.is_ok() && before == 2, "third datagram accepted");
+        kani::cover!(r.is_ok() && before == 1 && g.popped && s.send_queue() > g.bytes(), "accepted behind a padding record (ring wrapped)");
+        kani::cover!(r == Err(SendError::BufferFull) && before >= 1 && before < mcap && size <= pcap, "refused: payload ring too full");
+        kani::cover!(r == Err(SendError::BufferFull) && before == mcap, "refused: metadata slots full");
+        drain_tx(&mut s, cx, &g, hop);
+    }
+
+    // @harness props=C09 cfg=KG tier=q to=900 mem=8 unwind=17 opts=nomem covers=3 funcs=icmp::Socket::send_with;icmp::Socket::send_slice;icmp::Socket::dispatch;PacketBuffer::enqueue_with_infallible;PacketBuffer::dequeue_with bounds=tx_metadata_slots_2..=3;_payload_ring_20_bytes;_pre-state_=_send_slice,_send_with,_dispatch,_dispatch_(each_may_be_a_no-op);_max_size_0..=12,_written_message_8..=12_bytes_<=_max_size
+    #[kani::proof]
+    pub(crate) fn icmp_send_with() {
+        tx_setup!(dev, iface, cx, s, g, hop);
+        step_send(&mut s, &mut g, VIA_SLICE);
+        step_send(&mut s, &mut g, VIA_WITH);
+        step_dispatch(&mut s, cx, &mut g);
+        step_dispatch(&mut s, cx, &mut g);
+        let before = g.count();
+        let m = any_msg();
+        let take = HL + m.len;
+        let max = any_le(BL);
+        kani::assume(take <= max);
+        let bytes = message(m.tag, m.ident, m.ty, m.code, kani::any());
+        let pcap = s.payload_send_capacity();
+        let mcap = s.packet_send_capacity();
+        let mut offered = 0usize;
+        let mut called = false;
+        let r = s.send_with(max, IpAddress::Ipv4(m.addr), |b| {
+            called = true;
+            offered = b.len();
+            copy_into(&mut b[..take], &bytes);
+            take
+        });
+        match r {
+            Ok(n) => {
+                assert!(!unspec(&m.addr), "prop:c09_icmp_send_refuses_unaddressable");
+                assert!(called && offered == max && n == take, "prop:c09_icmp_send_with_offers_max_and_keeps_written_size");
+                g.push(m);
+            }
+            Err(SendError::Unaddressable) => assert!(unspec(&m.addr) && !called, "prop:c09_icmp_send_unaddressable_only_as_documented"),
+            Err(SendError::BufferFull) => {
+                assert!(!called, "prop:c09_icmp_send_with_callback_not_called_on_refusal");
+                // nothing queued => any datagram up to the payload capacity is accepted
+                assert!(!(before == 0 && max <= pcap), "prop:c09_icmp_empty_tx_accepts_up_to_capacity");
+            }
+        }
+        kani::cover!(r.is_ok() && before == 2 && take < max, "third datagram accepted and shrunk");
+        kani::cover!(r.is_ok() && before == 0 && g.popped, "accepted on a queue emptied by dispatch (read pointer moved)");
+        kani::cover!(r == Err(SendError::BufferFull) && before >= 1 && before < mcap && max <= pcap, "refused: payload ring too full");
+        drain_tx(&mut s, cx, &g, hop);
+    }
+
+    // @harness props=C09 cfg=KG tier=q to=900 mem=8 unwind=17 opts=nomem covers=4 funcs=icmp::Socket::dispatch;icmp::Socket::send_slice;icmp::Socket::send_with;Icmpv4Repr::parse;PacketBuffer::dequeue_with bounds=tx_metadata_slots_2..=3;_payload_ring_20_bytes;_pre-state_=_send_slice,_send_with,_dispatch,_send_slice_(each_may_be_a_no-op);_emit_returns_Ok_or_Err;_ICMPv4_messages_8..=12_bytes,_any_type/code
+    #[kani::proof]
+    pub(crate) fn icmp_dispatch() {
+        tx_setup!(dev, iface, cx, s, g, hop);
+        step_send(&mut s, &mut g, VIA_SLICE);
+        step_send(&mut s, &mut g, VIA_WITH);
+        step_dispatch(&mut s, cx, &mut g);
+        step_send(&mut s, &mut g, VIA_SLICE);
+        let before = g.count();
+        let head = g.q[0];
+        let emit_ok: bool = kani::any();
+        let (o, r) = dispatch_recording(&mut s, cx, &head, hop, emit_ok);
+        if head.valid && head.echo() {
+            assert!(o.seen, "prop:c09_icmp_tx_no_datagram_lost");
+            assert_emitted_is(&o, &head);
+            assert!(r.is_ok() == emit_ok, "prop:c09_icmp_dispatch_error_only_from_emit");
+            if emit_ok {
+                g.pop(); // exactly the head leaves the queue
+            }
+            // emit failed: nothing leaves the queue, the same datagram is offered again by the drain below
+        } else {
+            // empty, or a malformed message: dropped (at most once on the wire), emit not consulted
+            assert!(!o.seen && r.is_ok(), "prop:c09_icmp_tx_no_extra_datagram");
+            g.pop();
+        }
+        kani::cover!(head.valid && head.echo() && !emit_ok && before >= 2, "emit Err path taken with two or more queued");
+        kani::cover!(head.valid && head.echo() && emit_ok && before == 3, "emit Ok pops the head, two remain");
+        kani::cover!(head.valid && head.echo() && emit_ok && s.send_queue() > g.bytes(), "head popped in front of a padding record");
+        kani::cover!(head.valid && !head.echo() && before == 2, "malformed head dropped, one remains");
+        drain_tx(&mut s, cx, &g, hop);
+    }
+
+    // @harness props=C09,C13 cfg=KG tier=q to=900 mem=8 unwind=17 opts=nomem covers=3 funcs=icmp::Socket::poll_at;icmp::Socket::send_slice;icmp::Socket::send_with;icmp::Socket::dispatch bounds=tx_metadata_slots_2..=3;_payload_ring_20_bytes;_script_send_slice,_send_with,_dispatch,_send_slice,_dispatch,_dispatch_(each_may_be_a_no-op);_poll_at_probed_after_every_step
+    #[kani::proof]
+    pub(crate) fn icmp_poll_at() {
+        tx_setup!(dev, iface, cx, s, g, hop);
+        assert!(s.poll_at(cx) == PollAt::Ingress, "prop:c13_icmp_poll_at_ingress_when_nothing_queued");
+        step_send(&mut s, &mut g, VIA_SLICE);
+        let p1 = s.poll_at(cx);
+        assert!((g.count() > 0) == (p1 == PollAt::Now) && (g.count() == 0) == (p1 == PollAt::Ingress), "prop:c13_icmp_poll_at_now_iff_datagram_queued");
+        step_send(&mut s, &mut g, VIA_WITH);
+        let p2 = s.poll_at(cx);
+        assert!((g.count() > 0) == (p2 == PollAt::Now) && (g.count() == 0) == (p2 == PollAt::Ingress), "prop:c13_icmp_poll_at_now_iff_datagram_queued");
+        step_dispatch(&mut s, cx, &mut g);
+        let p3 = s.poll_at(cx);
+        assert!((g.count() > 0) == (p3 == PollAt::Now) && (g.count() == 0) == (p3 == PollAt::Ingress), "prop:c13_icmp_poll_at_now_iff_datagram_queued");
+        // a send that may be refused after its padding record was written, then the last datagram leaves
+        let sent = step_send(&mut s, &mut g, VIA_SLICE);
+        let p4 = s.poll_at(cx);
+        assert!(g.count() == 0 || p4 == PollAt::Now, "prop:c13_icmp_poll_at_now_while_datagram_queued");
+        let ok = step_dispatch(&mut s, cx, &mut g);
+        let p5 = s.poll_at(cx);
+        assert!(g.count() == 0 || p5 == PollAt::Now, "prop:c13_icmp_poll_at_now_while_datagram_queued");
+        assert!(p5 == PollAt::Now || p5 == PollAt::Ingress, "prop:c13_icmp_poll_at_now_or_ingress");
+        // non-spinning: a dispatch that had nothing to emit and leaves nothing queued leaves no deadline behind
+        let offered = (g.q[0].valid && g.q[0].echo());
+        let mut seen = false;
+        let _ = s.dispatch(cx, |_cx, _p| {
+            seen = true;
+            Err::<(), ()>(())
+        });
+        assert!(seen == offered, "prop:c09_icmp_tx_no_datagram_lost");
+        if !offered {
+            g.pop(); // nothing queued, or a head that is dropped without being emitted
+        }
+        let p6 = s.poll_at(cx);
+        assert!(seen || g.count() > 0 || p6 == PollAt::Ingress, "prop:c13_icmp_idle_dispatch_leaves_no_deadline");
+        kani::cover!(p2 == PollAt::Now && p5 == PollAt::Ingress, "queue drained: Now -> Ingress");
+        kani::cover!(!sent && g.count() == 0 && g.popped && ok && p5 == PollAt::Now && p6 == PollAt::Ingress, "only a padding record left: one idle dispatch, then Ingress");
+        kani::cover!(!ok && g.count() == 2, "emit failed with two queued: still Now");
+    }
+
+    // ---------------------------------------------------------------- receive side: script steps
+    fn bind_ident(s: &mut Socket<'_>) -> u16 {
+        let id: u16 = kani::any();
+        assert!(s.bind(Endpoint::Ident(id)).is_ok(), "prop:c09_icmp_bind_fresh_socket");
+        id
+    }
+
+    /// a symbolic echo request / reply for the bound identifier from any IPv4 source
+    fn any_echo(ident: u16) -> G {
+        let req: bool = kani::any();
+        G { valid: true, opt: false, tag: kani::any(), len: any_le(DD), addr: any_v4(), ident, ty: if req { 8 } else { 0 }, code: 0 }
+    }
+
+    fn process_echo(s: &mut Socket<'_>, cx: &mut Context, m: &G) {
+        let data = data_of(m.tag);
+        let repr = if m.ty == 8 {
+            Icmpv4Repr::EchoRequest { ident: m.ident, seq_no: seq_of(m.tag), data: &data[..m.len] }
+        } else {
+            Icmpv4Repr::EchoReply { ident: m.ident, seq_no: seq_of(m.tag), data: &data[..m.len] }
+        };
+        let ip = Ipv4Repr { src_addr: m.addr, dst_addr: LOCAL, next_header: IpProtocol::Icmp, payload_len: HL + m.len, hop_limit: 64 };
+        assert!(s.accepts_v4(cx, &ip, &repr), "prop:c09_icmp_accepts_echo_with_bound_ident");
+        s.process_v4(cx, &ip, &repr);
+    }
+
+    /// One accepted echo message (skipped or dropped as a whole: the step may be a no-op).  The message is
+    /// >= 8 bytes, a padding record alone is shorter than the message it precedes, so acceptance is visible
+    /// in the byte count and the ghost is exact.
+    fn step_process(s: &mut Socket<'_>, cx: &mut Context, g: &mut Ghost, ident: u16) -> bool {
+        if kani::any() {
+            return false;
+        }
+        let m = any_echo(ident);
+        let before = s.recv_queue();
+        process_echo(s, cx, &m);
+        let ok = s.recv_queue() >= before + HL + m.len;
+        if ok {
+            g.push(m);
+        }
+        ok
+    }
+
+    fn step_recv(s: &mut Socket<'_>, g: &mut Ghost) {
+        if kani::any() {
+            let _ = s.recv();
+            g.pop();
+        }
+    }
+
+    /// the received bytes are the ICMP message of `e`, whole (the checksum bytes are C08's subject)
+    fn bytes_are(buf: &[u8], e: &G) -> bool {
+        if buf.len() != HL + e.len {
+            return false;
+        }
+        let k = any_lt(DD);
+        buf[0] == e.ty
+            && buf[1] == 0
+            && buf[4] == (e.ident >> 8) as u8
+            && buf[5] == e.ident as u8
+            && buf[6] == (seq_of(e.tag) >> 8) as u8
+            && buf[7] == seq_of(e.tag) as u8
+            && (k >= e.len || buf[HL + k] == pat(e.tag, k))
+    }
+
+    /// the receive queue equals the ghost (an `opt` tail entry may be missing as a whole); returns whether
+    /// the `opt` entry was delivered
+    fn drain_rx(s: &mut Socket<'_>, g: &Ghost) -> bool {
+        assert!(!g.overflow, "prop:c09_icmp_rx_more_datagrams_than_metadata_slots");
+        let mut tail = false;
+        let mut i = 0;
+        while i < MC {
+            let e = g.q[i];
+            match s.recv() {
+                Ok((buf, a)) => {
+                    assert!(e.valid, "prop:c09_icmp_rx_no_extra_datagram");
+                    assert!(buf.len() == HL + e.len, "prop:c09_icmp_rx_datagram_whole_not_merged_not_split");
+                    assert!(bytes_are(buf, &e), "prop:c09_icmp_rx_message_bytes_unmodified");
+                    assert!(a == IpAddress::Ipv4(e.addr), "prop:c09_icmp_rx_source_address");
+                    if e.opt {
+                        tail = true;
+                    }
+                }
+                Err(err) => {
+                    assert!(err == RecvError::Exhausted, "prop:c09_icmp_recv_error_kind");
+                    assert!(!e.valid || e.opt, "prop:c09_icmp_rx_no_datagram_lost");
+                }
+            }
+            i += 1;
+        }
+        tail
+    }
+
+    macro_rules! rx_setup {
+        ($dev:ident, $iface:ident, $cx:ident, $s:ident, $g:ident, $ident:ident) => {
+            env!($dev, $iface, $cx);
+            sock!($s, any_slots(), PC, 1, 0);
+            let $ident = bind_ident(&mut $s);
+            let mut $g = Ghost::new();
+        };
+    }
+
+    // @harness props=C09 cfg=KG tier=q to=900 mem=8 unwind=17 opts=nomem covers=4 funcs=icmp::Socket::process_v4;icmp::Socket::accepts_v4;icmp::Socket::recv;Icmpv4Repr::emit;PacketBuffer::enqueue;PacketBuffer::dequeue bounds=rx_metadata_slots_2..=3;_payload_ring_20_bytes;_pre-state_=_process,_process,_recv,_recv_(each_may_be_a_no-op);_echo_request/reply_with_0..=4_data_bytes_from_any_IPv4_source
+    #[kani::proof]
+    pub(crate) fn icmp_process_recv() {
+        rx_setup!(dev, iface, cx, s, g, ident);
+        step_process(&mut s, cx, &mut g, ident);
+        step_process(&mut s, cx, &mut g, ident);
+        step_recv(&mut s, &mut g);
+        step_recv(&mut s, &mut g);
+        let before = g.count();
+        let mut m = any_echo(ident);
+        let size = HL + m.len;
+        let pcap = s.payload_recv_capacity();
+        let mcap = s.packet_recv_capacity();
+        process_echo(&mut s, cx, &m);
+        // delivered exactly once with its source address, or not at all
+        m.opt = true;
+        g.push(m);
+        let bytes_after = s.recv_queue();
+        let delivered = drain_rx(&mut s, &g);
+        if !delivered {
+            assert!(!(before == 0 && size <= pcap), "prop:c09_icmp_empty_rx_accepts_up_to_capacity");
+        } else {
+            assert!(before < mcap && size <= pcap, "prop:c09_icmp_rx_delivery_within_capacity");
+        }
+        kani::cover!(delivered && before == 2, "third datagram delivered");
+        kani::cover!(delivered && before == 1 && g.popped && bytes_after > g.bytes(), "delivered behind a padding record (ring wrapped)");
+        kani::cover!(!delivered && before >= 1 && before < mcap && size <= pcap, "dropped whole: payload ring too full");
+        kani::cover!(!delivered && before == mcap, "dropped whole: metadata slots full");
+    }
+
+    // @harness props=C09 cfg=KG tier=q to=900 mem=8 unwind=17 opts=nomem covers=3 funcs=icmp::Socket::recv_slice;icmp::Socket::recv;icmp::Socket::process_v4 bounds=rx_metadata_slots_2..=3;_payload_ring_20_bytes;_pre-state_=_process,_process,_recv,_process_(each_may_be_a_no-op);_user_buffer_0..=12_bytes
+    #[kani::proof]
+    pub(crate) fn icmp_recv_truncated() {
+        rx_setup!(dev, iface, cx, s, g, ident);
+        step_process(&mut s, cx, &mut g, ident);
+        step_process(&mut s, cx, &mut g, ident);
+        step_recv(&mut s, &mut g);
+        step_process(&mut s, cx, &mut g, ident);
+        let head = g.q[0];
+        let ulen = any_le(BL);
+        let mut ubuf = [0xEEu8; BL];
+        let r = s.recv_slice(&mut ubuf[..ulen]);
+        match r {
+            Ok((n, a)) => {
+                assert!(head.valid, "prop:c09_icmp_rx_no_extra_datagram");
+                assert!(n == HL + head.len && n <= ulen, "prop:c09_icmp_recv_slice_whole_datagram_or_error");
+                assert!(bytes_are(&ubuf[..n], &head), "prop:c09_icmp_rx_message_bytes_unmodified");
+                assert!(a == IpAddress::Ipv4(head.addr), "prop:c09_icmp_rx_source_address");
+                g.pop();
+            }
+            Err(RecvError::Truncated) => {
+                // documented: "the packet is dropped and a RecvError::Truncated error is returned"
+                assert!(head.valid && ulen < HL + head.len, "prop:c09_icmp_truncated_only_when_buffer_too_small");
+                g.pop();
+            }
+            Err(RecvError::Exhausted) => assert!(!head.valid, "prop:c09_icmp_rx_no_datagram_lost"),
+        }
+        kani::cover!(r == Err(RecvError::Truncated) && g.count() >= 1, "short user buffer: Truncated, next datagram still queued");
+        kani::cover!(matches!(r, Ok((n, _)) if n == ulen && n >= 10) && g.count() >= 1, "exact-size user buffer");
+        kani::cover!(matches!(r, Ok((n, _)) if n < ulen), "larger user buffer");
+        drain_rx(&mut s, &g);
+    }
+
+    // ---------------------------------------------------------------- accepts / bind
+    /// an 8-byte UDP header as found in the data of an ICMP error message
+    fn udp_header(sp: u16, dp: u16, len: u16) -> [u8; 8] {
+        [(sp >> 8) as u8, sp as u8, (dp >> 8) as u8, dp as u8, (len >> 8) as u8, len as u8, 0, 0]
+    }
+
+    // @harness props=C09 cfg=KG tier=q to=600 mem=8 unwind=17 opts=nomem covers=4 funcs=icmp::Socket::accepts_v4;icmp::Socket::bind;icmp::Socket::is_open;UdpRepr::parse bounds=bound_to_Ident(any),_Udp(any_port,_no/any_IPv4_address)_or_Tcp;_message_=_echo_request/reply_(any_ident)_or_DstUnreachable/TimeExceeded_quoting_an_8-byte_UDP_header_(any_ports,_any_length_field)
+    #[kani::proof]
+    pub(crate) fn icmp_accepts_bind() {
+        env!(dev, iface, cx);
+        sock!(s, 1, 0, 1, 0);
+        assert!(!s.is_open(), "prop:c09_icmp_new_socket_closed");
+        let bk: u8 = kani::any();
+        let bid: u16 = kani::any();
+        let bport: u16 = kani::any();
+        let baddr = if kani::any() { Some(IpAddress::Ipv4(any_v4())) } else { None };
+        let bep = IpListenEndpoint { addr: baddr, port: bport };
+        let ep1 = match bk {
+            0 => Endpoint::Unspecified,
+            1 => Endpoint::Ident(bid),
+            2 => Endpoint::Udp(bep),
+            _ => Endpoint::Tcp(bep),
+        };
+        let specified = match bk {
+            0 => false,
+            1 => true,
+            _ => bport != 0,
+        };
+        let r1 = s.bind(ep1);
+        // documented: Unaddressable iff the endpoint is unspecified; a fresh socket otherwise binds
+        assert!(r1 == if specified { Ok(()) } else { Err(BindError::Unaddressable) }, "prop:c09_icmp_bind_result_as_documented");
+        assert!(s.is_open() == r1.is_ok(), "prop:c09_icmp_open_iff_bound");
+
+        // the packet
+        let src = any_v4();
+        let dst = any_v4();
+        let echo: bool = kani::any();
+        let mid: u16 = kani::any();
+        let data = data_of(1);
+        let qsp: u16 = kani::any();
+        let qdp: u16 = kani::any();
+        let qlen: u16 = kani::any();
+        let quoted = udp_header(qsp, qdp, qlen);
+        let qhdr = Ipv4Repr { src_addr: dst, dst_addr: any_v4(), next_header: IpProtocol::Udp, payload_len: 8, hop_limit: 64 };
+        let mk: u8 = kani::any();
+        let repr = if echo {
+            if mk == 0 {
+                Icmpv4Repr::EchoRequest { ident: mid, seq_no: 1, data: &data[..2] }
+            } else {
+                Icmpv4Repr::EchoReply { ident: mid, seq_no: 1, data: &data[..2] }
+            }
+        } else if mk == 0 {
+            Icmpv4Repr::DstUnreachable { reason: Icmpv4DstUnreachable::PortUnreachable, header: qhdr, data: &quoted[..] }
+        } else {
+            Icmpv4Repr::TimeExceeded { reason: Icmpv4TimeExceeded::TtlExpired, header: qhdr, data: &quoted[..] }
+        };
+        // error messages against a TCP-bound socket need a quoted TCP header: not built here
+        kani::assume(echo || bk != 3);
+        let ip = Ipv4Repr { src_addr: src, dst_addr: dst, next_header: IpProtocol::Icmp, payload_len: repr.buffer_len(), hop_limit: 64 };
+        let acc = s.accepts_v4(cx, &ip, &repr);
+        let matches = match bk {
+            // bound to an identifier: echo request / reply carrying exactly that identifier
+            1 => echo && mid == bid,
+            // bound to a UDP port: an error message quoting a UDP header sent from that port, and, if bound
+            // to an address, addressed to that address
+            2 => !echo && bport != 0 && qsp == bport && (baddr.is_none() || baddr == Some(IpAddress::Ipv4(dst))),
+            _ => false,
+        };
+        assert!(!acc || matches, "prop:c09_icmp_accepts_only_if_bound_endpoint_matches");
+        // the quoted UDP datagram is complete (its length field covers exactly the 8 quoted bytes) and has a
+        // destination port: matching is also sufficient (truncated quotes: see icmp_accepts_truncated_quote)
+        if bk != 2 || (qlen == 8 && qdp != 0) {
+            assert!(acc == matches, "prop:c09_icmp_accepts_iff_bound_endpoint_matches");
+        }
+        kani::cover!(acc && bk == 1, "echo with the bound identifier accepted");
+        kani::cover!(acc && bk == 2 && baddr.is_some(), "error for the bound UDP port and address accepted");
+        kani::cover!(!acc && bk == 2 && !echo && qsp == bport && qlen == 8 && qdp != 0, "right port, wrong address");
+        kani::cover!(!acc && bk == 1 && echo, "echo with another identifier refused");
+
+        // binding twice is an error and changes nothing
+        if r1.is_ok() {
+            let ep2 = if kani::any() { Endpoint::Ident(kani::any()) } else { Endpoint::Unspecified };
+            let r2 = s.bind(ep2);
+            assert!(r2 == if ep2 == Endpoint::Unspecified { Err(BindError::Unaddressable) } else { Err(BindError::InvalidState) }, "prop:c09_icmp_bind_twice_errors");
+            assert!(s.endpoint == ep1, "prop:c09_icmp_failed_bind_keeps_endpoint");
+        }
+    }
+
+    // RFC 792: an ICMP error quotes the IP header and the first 64 bits of the offending datagram, so the
+    // quoted UDP length field normally exceeds the 8 quoted bytes.  A socket bound to the UDP port the
+    // datagram was sent from must accept such an error ("each valid datagram arriving for a bound socket is
+    // delivered").
+    // @harness props=C09 cfg=KG tier=q to=600 mem=8 unwind=17 opts=nomem covers=1 funcs=icmp::Socket::accepts_v4;UdpRepr::parse;UdpPacket::check_len bounds=socket_bound_to_Udp(any_port);_DstUnreachable_quoting_the_first_8_bytes_of_a_UDP_datagram_of_any_length_8..=65535
+    #[kani::proof]
+    pub(crate) fn icmp_accepts_truncated_quote() {
+        env!(dev, iface, cx);
+        sock!(s, 1, 0, 1, 0);
+        let bport: u16 = kani::any();
+        kani::assume(bport != 0);
+        assert!(s.bind(Endpoint::Udp(IpListenEndpoint { addr: None, port: bport })).is_ok(), "prop:c09_icmp_bind_fresh_socket");
+        let qdp: u16 = kani::any();
+        let qlen: u16 = kani::any();
+        kani::assume(qdp != 0 && qlen >= 8);
+        let quoted = udp_header(bport, qdp, qlen);
+        let qhdr = Ipv4Repr { src_addr: LOCAL, dst_addr: any_v4(), next_header: IpProtocol::Udp, payload_len: 8, hop_limit: 64 };
+        let repr = Icmpv4Repr::DstUnreachable { reason: Icmpv4DstUnreachable::PortUnreachable, header: qhdr, data: &quoted[..] };
+        let ip = Ipv4Repr { src_addr: any_v4(), dst_addr: LOCAL, next_header: IpProtocol::Icmp, payload_len: repr.buffer_len(), hop_limit: 64 };
+        let acc = s.accepts_v4(cx, &ip, &repr);
+        kani::cover!(qlen > 8, "quoted datagram longer than the quote");
+        assert!(acc, "prop:c09_icmp_accepts_error_quoting_first_8_bytes_of_own_udp_datagram");
+    }
+
+    // ---------------------------------------------------------------- IPv6 messages (one datagram each way)
+    // @harness props=C09 cfg=KG tier=q to=900 mem=8 unwind=17 opts=nomem covers=2 funcs=icmp::Socket::send_slice;icmp::Socket::dispatch;icmp::Socket::process_v6;icmp::Socket::accepts_v6;icmp::Socket::recv;Icmpv6Repr::parse;Icmpv6Repr::emit bounds=one_ICMPv6_echo_request/reply_(0..=4_data_bytes)_sent_and_one_received;_payload_rings_of_12_bytes;_IPv6_addresses_with_2_symbolic_groups;_interface_without_IPv6_address_(source_::1)
+    #[cfg(feature = "proto-ipv6")]
+    #[kani::proof]
+    pub(crate) fn icmp_v6_send_dispatch_process_recv() {
+        env!(dev, iface, cx);
+        sock!(s, 1, BL, 1, BL);
+        let ident = bind_ident(&mut s);
+        // transmit
+        let req: bool = kani::any();
+        let tag: u8 = kani::any();
+        let d = any_le(DD);
+        let a: u16 = kani::any();
+        let b: u16 = kani::any();
+        let dst = Ipv6Address::new(a, 0, 0, 0, 0, 0, 0, b);
+        let bytes = message(tag, ident, if req { 0x80 } else { 0x81 }, 0, kani::any());
+        let r = s.send_slice(&bytes[..HL + d], IpAddress::Ipv6(dst));
+        assert!(r.is_ok() == !(a == 0 && b == 0), "prop:c09_icmp_send_unaddressable_only_as_documented");
+        let emit_ok: bool = kani::any();
+        let exp_src = if r.is_ok() { Some(cx.get_source_address_ipv6(&dst)) } else { None };
+        let mut seen = 0u8;
+        let mut good = false;
+        let k = any_lt(DD);
+        let r1 = s.dispatch(cx, |_cx, (ip, icmp)| {
+            seen += 1;
+            let ipok = ip.dst_addr() == IpAddress::Ipv6(dst) && Some(ip.src_addr()) == exp_src.map(IpAddress::Ipv6)
+                && ip.next_header() == IpProtocol::Icmpv6 && ip.payload_len() == HL + d && ip.hop_limit() == 64;
+            good = ipok && match icmp {
+                IcmpRepr::Ipv6(Icmpv6Repr::EchoRequest { ident: i, seq_no, data }) => {
+                    req && i == ident && seq_no == seq_of(tag) && data.len() == d && (k >= d || data[k] == pat(tag, k))
+                }
+                IcmpRepr::Ipv6(Icmpv6Repr::EchoReply { ident: i, seq_no, data }) => {
+                    !req && i == ident && seq_no == seq_of(tag) && data.len() == d && (k >= d || data[k] == pat(tag, k))
+                }
+                _ => false,
+            };
+            if emit_ok { Ok(()) } else { Err(()) }
+        });
+        if r.is_ok() {
+            assert!(seen == 1 && good, "prop:c09_icmp_tx_message_bytes_unmodified");
+            assert!(r1.is_ok() == emit_ok, "prop:c09_icmp_dispatch_error_only_from_emit");
+        } else {
+            assert!(seen == 0, "prop:c09_icmp_tx_no_extra_datagram");
+        }
+        // re-offered once after a failed emit, then gone
+        let r2 = s.dispatch(cx, |_cx, _p| {
+            seen += 1;
+            Ok::<(), ()>(())
+        });
+        assert!(seen == (r.is_ok() as u8) + (r.is_ok() && !emit_ok) as u8, "prop:c09_icmp_tx_each_datagram_at_most_once_after_success");
+        assert!(s.poll_at(cx) == PollAt::Ingress, "prop:c13_icmp_poll_at_ingress_when_nothing_queued");
+        kani::cover!(r.is_ok() && !emit_ok && seen == 2, "IPv6 echo re-offered after a failed emit");
+
+        // receive
+        let src = Ipv6Address::new(kani::any(), 0, 0, 0, 0, 0, 0, kani::any());
+        let me = Ipv6Address::new(0xfe80, 0, 0, 0, 0, 0, 0, 1);
+        let rtag: u8 = kani::any();
+        let rd = any_le(DD);
+        let data = data_of(rtag);
+        let rid: u16 = kani::any();
+        let rreq: bool = kani::any();
+        let repr = if rreq {
+            Icmpv6Repr::EchoRequest { ident: rid, seq_no: seq_of(rtag), data: &data[..rd] }
+        } else {
+            Icmpv6Repr::EchoReply { ident: rid, seq_no: seq_of(rtag), data: &data[..rd] }
+        };
+        let ip6 = Ipv6Repr { src_addr: src, dst_addr: me, next_header: IpProtocol::Icmpv6, payload_len: HL + rd, hop_limit: 64 };
+        let acc = s.accepts_v6(cx, &ip6, &repr);
+        assert!(acc == (rid == ident), "prop:c09_icmp_accepts_iff_bound_endpoint_matches");
+        if acc {
+            s.process_v6(cx, &ip6, &repr);
+            match s.recv() {
+                Ok((buf, from)) => {
+                    assert!(from == IpAddress::Ipv6(src), "prop:c09_icmp_rx_source_address");
+                    assert!(buf.len() == HL + rd, "prop:c09_icmp_rx_datagram_whole_not_merged_not_split");
+                    let e = G { valid: true, opt: false, tag: rtag, len: rd, addr: LOCAL, ident: rid, ty: if rreq { 0x80 } else { 0x81 }, code: 0 };
+                    assert!(bytes_are(buf, &e), "prop:c09_icmp_rx_message_bytes_unmodified");
+                }
+                Err(_) => assert!(false, "prop:c09_icmp_empty_rx_accepts_up_to_capacity"),
+            }
+            assert!(s.recv().is_err(), "prop:c09_icmp_rx_no_extra_datagram");
+        }
+        kani::cover!(acc && rd == DD, "IPv6 echo with 4 data bytes delivered");
+    }
+
+    // @harness props=C09 kind=mustfail cfg=KG tier=q to=600 mem=8 unwind=17 opts=nomem
+    #[kani::proof]
+    pub(crate) fn icmp_must_fail() {
+        tx_setup!(dev, iface, cx, s, g, hop);
+        step_send(&mut s, &mut g, VIA_SLICE);
+        step_send(&mut s, &mut g, VIA_SLICE);
+        let head = g.q[0];
+        let (o, r) = dispatch_recording(&mut s, cx, &head, hop, false);
+        // false: a failed emit does NOT remove the head
+        g.pop();
+        drain_tx(&mut s, cx, &g, hop);
+    }
 }
